@@ -136,6 +136,12 @@ func sameLoc(a, b ssa.Value) bool {
 	if !ok1 || !ok2 {
 		return false
 	}
+	// loads of the same field of the same object
+	if fa, ok := aa.(*ssa.FieldAddr); ok {
+		if fb, ok := ba.(*ssa.FieldAddr); ok && fa.X == fb.X && fa.Field == fb.Field {
+			return true
+		}
+	}
 	ia, ok1 := aa.(*ssa.IndexAddr)
 	ib, ok2 := ba.(*ssa.IndexAddr)
 	if !ok1 || !ok2 || ia.X != ib.X {
